@@ -11,17 +11,20 @@ import Tickit.Proof.LifePens
 -/
 namespace Tickit.Life
 open WinTree (Id Win Req Change Tree)
+variable {gh : Ghost}
 
 /-- The state invariant while frames of `_handle_key` hold `int i` references on window `i`. -/
-structure KInv (st : St) (int : Nat → Nat) : Prop extends SInvB st [] where
-  up : ∀ (i : Nat) (w : Win), LiveW st.tree i w → w.refcount ≤ ((getX st i).appRefs : Int) + (int i : Int)
+structure KInv (gh : Ghost) (st : St) (int : Nat → Nat) : Prop extends SInvB gh st [] where
+  up : ∀ (i : Nat) (w : Win), LiveW st.tree i w → w.refcount ≤ ((getX st i).appRefs : Int) + (gh.win i : Int) + (int i : Int) ∧
+    (gh.covers i → ((getX st i).appRefs : Int) + (gh.win i : Int) + (int i : Int) ≤ w.refcount)
   lo : ∀ (i : Nat) (w : Win), LiveW st.tree i w → 1 + (int i : Int) ≤ w.refcount
+  glive : 0 < gh.win 0 → ∃ r, LiveW st.tree 0 r
 
-theorem KInv.of_inv {st : St} (inv : SInv st) : KInv st (fun _ => 0) :=
-  ⟨inv.toSInvB, fun i w hl => by have := inv.wref i w hl; simpa using this, fun i w hl => by have := inv.rc i w hl; simpa using this⟩
+theorem KInv.of_inv {st : St} (inv : SInv gh st) : KInv gh st (fun _ => 0) :=
+  ⟨inv.toSInvB, fun i w hl => by have := inv.wref i w hl; simpa using this, fun i w hl => by have := inv.rc i w hl; simpa using this, inv.glive⟩
 
-theorem KInv.to_inv {st : St} (K : KInv st (fun _ => 0)) : SInv st :=
-  ⟨K.toSInvB, fun i w hl => by have := K.up i w hl; simpa using this⟩
+theorem KInv.to_inv {st : St} (K : KInv gh st (fun _ => 0)) : SInv gh st :=
+  ⟨K.toSInvB, fun i w hl => by have := K.up i w hl; simpa using this, K.glive⟩
 
 /-- Nothing is freed, the terminal is untouched. -/
 structure Pres (st st' : St) : Prop where
@@ -34,10 +37,10 @@ theorem Pres.trans {a b c : St} (h1 : Pres a b) (h2 : Pres b c) : Pres a c :=
   ⟨h2.size.trans h1.size, fun i w h => by obtain ⟨w', h'⟩ := h1.live i w h; exact h2.live i w' h', h2.term.trans h1.term⟩
 
 /-- A new tree of the same size in which every window keeps `freed` and (if live) its count. -/
-theorem KInv.of_tree {st : St} {int : Nat → Nat} (K : KInv st int) {t' : Tree} (hinv : TInv t') (hsz : t'.wins.size = st.tree.wins.size)
+theorem KInv.of_tree {st : St} {int : Nat → Nat} (K : KInv gh st int) {t' : Tree} (hinv : TInv t') (hsz : t'.wins.size = st.tree.wins.size)
     (h : ∀ (i : Nat) (w : Win), st.tree.wins[i]? = some w →
       ∃ w', t'.wins[i]? = some w' ∧ w'.freed = w.freed ∧ (w.freed = false → w'.refcount = w.refcount)) :
-    KInv { st with tree := t' } int ∧ Pres st { st with tree := t' } := by
+    KInv gh { st with tree := t' } int ∧ Pres st { st with tree := t' } := by
   have back : ∀ (i : Nat) (w' : Win), LiveW t' i w' → ∃ w, LiveW st.tree i w ∧ w'.refcount = w.refcount := by
     intro i w' hl'
     cases hw : st.tree.wins[i]? with
@@ -54,7 +57,10 @@ theorem KInv.of_tree {st : St} {int : Nat → Nat} (K : KInv st int) {t' : Tree}
       subst e
       have hfl : w.freed = false := by rw [← hf]; exact hl'.2
       exact ⟨w, ⟨hw, hfl⟩, hr hfl⟩
-  refine ⟨⟨K.toSInvB.of_tree hinv hsz ?_, ?_, ?_⟩, ⟨hsz, ?_, rfl⟩⟩
+  refine ⟨⟨K.toSInvB.of_tree hinv hsz ?_, ?_, ?_, fun hg => by
+    obtain ⟨r, hr⟩ := K.glive hg
+    obtain ⟨w', hw', hf, _⟩ := h 0 r hr.1
+    exact ⟨w', hw', by rw [hf]; exact hr.2⟩⟩, ⟨hsz, ?_, rfl⟩⟩
   · intro i w hw
     obtain ⟨w', hw', hf, hr⟩ := h i w hw
     exact ⟨w', hw', hf, fun hfl h1 => by rw [hr hfl]; exact h1⟩
@@ -68,15 +74,15 @@ theorem KInv.of_tree {st : St} {int : Nat → Nat} (K : KInv st int) {t' : Tree}
     obtain ⟨w', hw', hf, _⟩ := h i w hl.1
     exact ⟨w', hw', by rw [hf]; exact hl.2⟩
 
-theorem KInv.of_rel' {st : St} {int : Nat → Nat} (K : KInv st int) {t' : Tree} (hinv : TInv t') (hrel : TRel st.tree t')
-    (hrc : SameRC st.tree t') : KInv { st with tree := t' } int ∧ Pres st { st with tree := t' } := by
+theorem KInv.of_rel' {st : St} {int : Nat → Nat} (K : KInv gh st int) {t' : Tree} (hinv : TInv t') (hrel : TRel st.tree t')
+    (hrc : SameRC st.tree t') : KInv gh { st with tree := t' } int ∧ Pres st { st with tree := t' } := by
   refine K.of_tree hinv hrel.1 ?_
   intro i w hw
   obtain ⟨w', hw', hr⟩ := hrel.2 i w hw
   exact ⟨w', hw', hr.2.2.1, fun _ => hrc i w w' hw hw'⟩
 
-theorem KInv.of_closed {st : St} {int : Nat → Nat} (K : KInv st int) {t' : Tree} {win : Nat} {ww : Win} (hw : LiveW st.tree win ww)
-    (C : Closed st.tree t' win ww) : KInv { st with tree := t' } int ∧ Pres st { st with tree := t' } := by
+theorem KInv.of_closed {st : St} {int : Nat → Nat} (K : KInv gh st int) {t' : Tree} {win : Nat} {ww : Win} (hw : LiveW st.tree win ww)
+    (C : Closed st.tree t' win ww) : KInv gh { st with tree := t' } int ∧ Pres st { st with tree := t' } := by
   refine K.of_tree C.inv C.size_eq ?_
   intro i w hwi
   by_cases hi : i = win
@@ -89,39 +95,56 @@ theorem KInv.of_closed {st : St} {int : Nat → Nat} (K : KInv st int) {t' : Tre
     · exact ⟨_, h, rfl, fun _ => rfl⟩
 
 /-- A change of a window's record that keeps its pen and the application's tally. -/
-theorem KInv.setX_same {st : St} {int : Nat → Nat} (K : KInv st int) (i : Nat) (x : WinX) (hp : x.pen = (getX st i).pen)
-    (ha : x.appRefs = (getX st i).appRefs) : KInv (setX st i x) int ∧ Pres st (setX st i x) := by
-  refine ⟨⟨K.toSInvB.of_wx rfl rfl rfl rfl rfl (setX_map_pen x hp), ?_, K.lo⟩, ⟨rfl, fun _ w h => ⟨w, h⟩, rfl⟩⟩
+theorem KInv.setX_same {st : St} {int : Nat → Nat} (K : KInv gh st int) (i : Nat) (x : WinX) (hp : x.pen = (getX st i).pen)
+    (ha : x.appRefs = (getX st i).appRefs) : KInv gh (setX st i x) int ∧ Pres st (setX st i x) := by
+  refine ⟨⟨K.toSInvB.of_wx rfl rfl rfl rfl rfl (setX_map_pen x hp), ?_, K.lo, K.glive⟩, ⟨rfl, fun _ w h => ⟨w, h⟩, rfl⟩⟩
   intro j w hl
   rw [getX_setX]
   split
   · rename_i h; rw [ha, h.1]; exact K.up j w hl
   · exact K.up j w hl
 
-/-- The count of one live window and the frames' tally move together. -/
-theorem KInv.set_refcount {st : St} {int : Nat → Nat} (K : KInv st int) {win : Nat} {ww : Win} (hw : LiveW st.tree win ww)
+/-- The count of one live window, the application's tally of it and the frames' tally move together. -/
+theorem KInv.set_refcount_x {st : St} {int : Nat → Nat} (K : KInv gh st int) {win : Nat} {ww : Win} (hw : LiveW st.tree win ww)
+    (x : WinX) (hp : x.pen = (getX st win).pen)
     (r : Int) (int' : Nat → Nat) (hoth : ∀ j, j ≠ win → int' j = int j)
-    (hup : r ≤ ((getX st win).appRefs : Int) + (int' win : Int)) (hlo : 1 + (int' win : Int) ≤ r) :
-    KInv (setW st win { ww with refcount := r }) int' ∧ Pres st (setW st win { ww with refcount := r }) := by
+    (hup : r ≤ (x.appRefs : Int) + (gh.win win : Int) + (int' win : Int) ∧
+      (gh.covers win → (x.appRefs : Int) + (gh.win win : Int) + (int' win : Int) ≤ r)) (hlo : 1 + (int' win : Int) ≤ r) :
+    KInv gh (setW (setX st win x) win { ww with refcount := r }) int' ∧ Pres st (setW (setX st win x) win { ww with refcount := r }) := by
   obtain ⟨inv', hrel⟩ := K.tinv.set_refcount hw r
+  have hlt : win < st.wx.size := by rw [K.wx_size]; exact hw.lt
   have hl0 : LiveW (WinTree.set st.tree win { ww with refcount := r }) win { ww with refcount := r } :=
     ⟨set_get_self _ hw.lt, hw.2⟩
-  refine ⟨⟨K.toSInvB.of_tree (t' := WinTree.set st.tree win { ww with refcount := r }) inv' (set_size _ _ _) ?_, ?_, ?_⟩,
+  have KB : SInvB gh (setX st win x) [] := K.toSInvB.of_wx rfl rfl rfl rfl rfl (setX_map_pen x hp)
+  have hget : ∀ j, getX (setW (setX st win x) win { ww with refcount := r }) j = if win = j then x else getX st j := by
+    intro j
+    show getX (setX st win x) j = _
+    rw [getX_setX]
+    simp only [hlt, and_true]
+  refine ⟨⟨KB.of_tree (t' := WinTree.set st.tree win { ww with refcount := r }) inv' (set_size _ _ _) ?_, ?_, ?_, fun hg => by
+      obtain ⟨r0, hr0⟩ := K.glive hg
+      by_cases h0 : win = 0
+      · subst h0; exact ⟨_, hl0⟩
+      · exact ⟨r0, by show (WinTree.set st.tree win _).wins[0]? = some r0; rw [set_get_ne _ h0]; exact hr0.1, hr0.2⟩⟩,
     ⟨set_size _ _ _, ?_, rfl⟩⟩
   · intro i w hwi
+    have hwi' : st.tree.wins[i]? = some w := hwi
     by_cases hi : win = i
     · subst hi
-      have : w = ww := by rw [hw.1] at hwi; exact (Option.some.inj hwi).symm
+      have : w = ww := by rw [hw.1] at hwi'; exact (Option.some.inj hwi').symm
       subst this
       exact ⟨_, set_get_self _ hw.lt, rfl, fun _ _ => by show 1 ≤ r; omega⟩
-    · exact ⟨w, by rw [set_get_ne _ hi]; exact hwi, rfl, fun _ h => h⟩
+    · exact ⟨w, by rw [set_get_ne _ hi]; exact hwi', rfl, fun _ h => h⟩
   · intro i w' hl'
     have hl'' : LiveW (WinTree.set st.tree win { ww with refcount := r }) i w' := hl'
+    rw [hget]
     by_cases hi : win = i
     · subst hi
       have := LiveW.unique hl'' hl0; subst this
+      simp only [if_true]
       exact hup
     · rw [hoth i (Ne.symm hi)]
+      simp only [hi, if_false]
       exact K.up i w' ⟨by rw [← set_get_ne _ hi]; exact hl''.1, hl''.2⟩
   · intro i w' hl'
     have hl'' : LiveW (WinTree.set st.tree win { ww with refcount := r }) i w' := hl'
@@ -137,15 +160,44 @@ theorem KInv.set_refcount {st : St} {int : Nat → Nat} (K : KInv st int) {win :
     · subst hi; exact ⟨_, hl0⟩
     · exact ⟨w, by rw [set_get_ne _ hi]; exact hl.1, hl.2⟩
 
+theorem setX_getX_self (st : St) (i : Nat) : setX st i (getX st i) = st := by
+  have : st.wx.setIfInBounds i (getX st i) = st.wx := by
+    apply Array.ext_getElem?
+    intro j
+    rw [Array.getElem?_setIfInBounds]
+    split
+    · rename_i h
+      subst h
+      split
+      · rename_i hlt
+        unfold getX
+        rw [Array.getElem?_eq_getElem hlt]; rfl
+      · rename_i hlt
+        rw [Array.getElem?_eq_none (by omega)]
+    · rfl
+  unfold setX
+  simp only [this]
+
+/-- The count of one live window and the frames' tally move together. -/
+theorem KInv.set_refcount {st : St} {int : Nat → Nat} (K : KInv gh st int) {win : Nat} {ww : Win} (hw : LiveW st.tree win ww)
+    (r : Int) (int' : Nat → Nat) (hoth : ∀ j, j ≠ win → int' j = int j)
+    (hup : r ≤ ((getX st win).appRefs : Int) + (gh.win win : Int) + (int' win : Int) ∧
+      (gh.covers win → ((getX st win).appRefs : Int) + (gh.win win : Int) + (int' win : Int) ≤ r)) (hlo : 1 + (int' win : Int) ≤ r) :
+    KInv gh (setW st win { ww with refcount := r }) int' ∧ Pres st (setW st win { ww with refcount := r }) := by
+  have := K.set_refcount_x hw (getX st win) rfl r int' hoth hup hlo
+  rw [setX_getX_self] at this
+  exact this
+
 /-- A frame takes a reference (`tickit_window_ref`). -/
-theorem KInv.refI {st : St} {int : Nat → Nat} (K : KInv st int) {win : Nat} {ww : Win} (hw : LiveW st.tree win ww) :
-    ∃ st', refW st win = .ok st' ∧ KInv st' (bump int win) ∧ Pres st st' ∧ st'.wx = st.wx := by
+theorem KInv.refI {st : St} {int : Nat → Nat} (K : KInv gh st int) {win : Nat} {ww : Win} (hw : LiveW st.tree win ww) :
+    ∃ st', refW st win = .ok st' ∧ KInv gh st' (bump int win) ∧ Pres st st' ∧ st'.wx = st.wx := by
   unfold refW
   simp only [getW, get_live hw, bind_ok, pure_ok]
   have hu := K.up win ww hw
   have hl := K.lo win ww hw
   obtain ⟨K', P'⟩ := K.set_refcount hw (ww.refcount + 1) (bump int win) (fun j hj => by simp [bump, hj])
-    (by simp only [bump, if_true]; omega) (by simp only [bump, if_true]; omega)
+    ⟨by simp only [bump, if_true]; omega, fun hc => by have := hu.2 hc; simp only [bump, if_true]; omega⟩
+    (by simp only [bump, if_true]; omega)
   exact ⟨_, rfl, K', P', rfl⟩
 
 /-- `tickit_window_unref` of a window that holds another reference: the count goes down, nothing else happens. -/
@@ -158,14 +210,15 @@ theorem unrefW_dec (cfg : Cfg) {st : St} {win : Nat} {ww : Win} (hw : LiveW st.t
   rfl
 
 /-- A frame gives a reference back. -/
-theorem KInv.unrefI (cfg : Cfg) {st : St} {int : Nat → Nat} (K : KInv st int) {win : Nat} {ww : Win} (hw : LiveW st.tree win ww)
+theorem KInv.unrefI (cfg : Cfg) {st : St} {int : Nat → Nat} (K : KInv gh st int) {win : Nat} {ww : Win} (hw : LiveW st.tree win ww)
     (hi : 1 ≤ int win) :
-    ∃ st', unrefW cfg st win = .ok st' ∧ KInv st' (unbump int win) ∧ Pres st st' ∧ st'.wx = st.wx := by
+    ∃ st', unrefW cfg st win = .ok st' ∧ KInv gh st' (unbump int win) ∧ Pres st st' ∧ st'.wx = st.wx := by
   have hu := K.up win ww hw
   have hl := K.lo win ww hw
   rw [unrefW_dec cfg hw (by omega)]
   obtain ⟨K', P'⟩ := K.set_refcount hw (ww.refcount - 1) (unbump int win) (fun j hj => by simp [unbump, hj])
-    (by simp only [unbump, if_true]; omega) (by simp only [unbump, if_true]; omega)
+    ⟨by simp only [unbump, if_true]; omega, fun hc => by have := hu.2 hc; simp only [unbump, if_true]; omega⟩
+    (by simp only [unbump, if_true]; omega)
   exact ⟨_, rfl, K', P', rfl⟩
 
 /-! ## handlers that free nothing -/
@@ -183,44 +236,30 @@ theorem KeepingHandlers.setX {st : St} (H : KeepingHandlers st) (i : Nat) (x : W
     rw [he]; exact H i b0 hb0
   · exact H j b hbj
 
-/-- A change of a window's record that keeps its pen and does not lower the application's tally. -/
-theorem KInv.setX_app {st : St} {int : Nat → Nat} (K : KInv st int) (i : Nat) (x : WinX) (hp : x.pen = (getX st i).pen)
-    (ha : (getX st i).appRefs ≤ x.appRefs) : KInv (setX st i x) int ∧ Pres st (setX st i x) := by
-  refine ⟨⟨K.toSInvB.of_wx rfl rfl rfl rfl rfl (setX_map_pen x hp), ?_, K.lo⟩, ⟨rfl, fun _ w h => ⟨w, h⟩, rfl⟩⟩
-  intro j w hl
-  rw [getX_setX]
-  split
-  · rename_i h
-    have := K.up j w hl
-    rw [← h.1] at this
-    have ha' : ((getX st i).appRefs : Int) ≤ (x.appRefs : Int) := by exact_mod_cast ha
-    rw [← h.1]
-    omega
-  · exact K.up j w hl
-
 theorem tree_update_wx (st : St) (t' : Tree) : ({ st with tree := t' } : St).wx = st.wx := rfl
 
 /-- One call of a handler that frees nothing: skipped, or done with every window alive and the account intact. -/
-theorem simpleOp_keep {cfg : Cfg} (R : Repaired cfg) {st : St} {int : Nat → Nat} (K : KInv st int) (H : KeepingHandlers st)
+theorem simpleOp_keep {cfg : Cfg} (R : Repaired cfg) {st : St} {int : Nat → Nat} (K : KInv gh st int) (H : KeepingHandlers st)
     (a : Act) (ha : a.keeps = true) (self : Option (Id × Int)) :
     simpleOp cfg st a self = none ∨
-      ∃ st', simpleOp cfg st a self = some (.ok st') ∧ KInv st' int ∧ Pres st st' ∧ KeepingHandlers st' := by
+      ∃ st', simpleOp cfg st a self = some (.ok st') ∧ KInv gh st' int ∧ Pres st st' ∧ KeepingHandlers st' := by
   cases a <;> simp only [Act.keeps, Bool.false_eq_true] at ha <;> simp only [simpleOp]
   case ref w =>
     by_cases hh : heldW st w = true
     · right
       obtain ⟨ww, hw, _⟩ := heldW_spec hh
       simp only [hh, if_true]
-      obtain ⟨K1, P1⟩ := K.setX_app w { getX st w with appRefs := (getX st w).appRefs + 1 } rfl (Nat.le_succ _)
-      have hw1 : LiveW (setX st w { getX st w with appRefs := (getX st w).appRefs + 1 }).tree w ww := hw
-      have hlt : w < st.wx.size := by rw [K.wx_size]; exact hw.lt
       have hu := K.up w ww hw
       have hl := K.lo w ww hw
       unfold refW
       simp only [getW, setX_tree, get_live hw, bind_ok, pure_ok]
-      obtain ⟨K2, P2⟩ := K1.set_refcount hw1 (ww.refcount + 1) int (fun _ _ => rfl)
-        (by rw [getX_setX_self _ hlt]; show ww.refcount + 1 ≤ (((getX st w).appRefs + 1 : Nat) : Int) + _; omega) (by omega)
-      refine ⟨_, rfl, K2, P1.trans P2, ?_⟩
+      obtain ⟨K2, P2⟩ := K.set_refcount_x hw { getX st w with appRefs := (getX st w).appRefs + 1 } rfl (ww.refcount + 1) int (fun _ _ => rfl)
+        ⟨by show ww.refcount + 1 ≤ (((getX st w).appRefs + 1 : Nat) : Int) + _ + _; omega,
+         fun h0 => by
+          have := hu.2 h0
+          show (((getX st w).appRefs + 1 : Nat) : Int) + _ + _ ≤ ww.refcount + 1
+          omega⟩ (by omega)
+      refine ⟨_, rfl, K2, P2, ?_⟩
       exact (H.setX w { getX st w with appRefs := (getX st w).appRefs + 1 } (fun b hb => ⟨b, hb, rfl⟩)).of_wx rfl
     · left; simp only [hh, Bool.false_eq_true, if_false]
   case close w =>
@@ -327,8 +366,8 @@ theorem simpleOp_keep {cfg : Cfg} (R : Repaired cfg) {st : St} {int : Nat → Na
       · left; rw [if_neg hh]
 
 theorem runActs_keep {cfg : Cfg} (R : Repaired cfg) (self : Id × Int) : ∀ (acts : List Act) {st : St} {int : Nat → Nat},
-    KInv st int → KeepingHandlers st → (∀ a ∈ acts, a.keeps = true) →
-    ∃ st', runActs cfg self st acts = .ok st' ∧ KInv st' int ∧ Pres st st' ∧ KeepingHandlers st'
+    KInv gh st int → KeepingHandlers st → (∀ a ∈ acts, a.keeps = true) →
+    ∃ st', runActs cfg self st acts = .ok st' ∧ KInv gh st' int ∧ Pres st st' ∧ KeepingHandlers st'
   | [], st, int, K, H, _ => ⟨st, rfl, K, Pres.refl st, H⟩
   | a :: rest, st, int, K, H, hk => by
     unfold runActs
@@ -341,8 +380,8 @@ theorem runActs_keep {cfg : Cfg} (R : Repaired cfg) (self : Id × Int) : ∀ (ac
       exact ⟨st2, h2, K2, P1.trans P2, H2⟩
 
 theorem runBinds_go_keep {cfg : Cfg} (R : Repaired cfg) (win : Id) (ev : Ev) (tag : String) :
-    ∀ (bs : List Bind) {st : St} {int : Nat → Nat}, KInv st int → KeepingHandlers st →
-    ∃ st' b, runBinds.go cfg win ev tag st bs = .ok (st', b) ∧ KInv st' int ∧ Pres st st' ∧ KeepingHandlers st'
+    ∀ (bs : List Bind) {st : St} {int : Nat → Nat}, KInv gh st int → KeepingHandlers st →
+    ∃ st' b, runBinds.go cfg win ev tag st bs = .ok (st', b) ∧ KInv gh st' int ∧ Pres st st' ∧ KeepingHandlers st'
   | [], st, int, K, H => ⟨st, false, rfl, K, Pres.refl st, H⟩
   | b :: rest, st, int, K, H => by
     unfold runBinds.go
@@ -353,8 +392,8 @@ theorem runBinds_go_keep {cfg : Cfg} (R : Repaired cfg) (win : Id) (ev : Ev) (ta
       have hcm : c ∈ (getX st win).binds := List.mem_of_find?_eq_some hc
       dsimp only
       split
-      · have K0 : KInv { st with log := st.log ++ [tag] } int :=
-          ⟨K.toSInvB.of_wx rfl rfl rfl rfl rfl rfl, K.up, K.lo⟩
+      · have K0 : KInv gh { st with log := st.log ++ [tag] } int :=
+          ⟨K.toSInvB.of_wx rfl rfl rfl rfl rfl rfl, K.up, K.lo, K.glive⟩
         have H0 : KeepingHandlers { st with log := st.log ++ [tag] } := H.of_wx rfl
         obtain ⟨st1, h1, K1, P1, H1⟩ := runActs_keep R (win, c.id) c.acts K0 H0 (H win c hcm)
         have P0 : Pres st { st with log := st.log ++ [tag] } := ⟨rfl, fun _ w h => ⟨w, h⟩, rfl⟩
@@ -366,9 +405,9 @@ theorem runBinds_go_keep {cfg : Cfg} (R : Repaired cfg) (win : Id) (ev : Ev) (ta
       · exact runBinds_go_keep R win ev tag rest K H
 
 /-- `run_events_whilefalse(win, ev, info)` with handlers that free nothing. -/
-theorem runBinds_keep {cfg : Cfg} (R : Repaired cfg) {st : St} {int : Nat → Nat} (K : KInv st int) (H : KeepingHandlers st)
+theorem runBinds_keep {cfg : Cfg} (R : Repaired cfg) {st : St} {int : Nat → Nat} (K : KInv gh st int) (H : KeepingHandlers st)
     {win : Nat} {ww : Win} (hw : LiveW st.tree win ww) (ev : Ev) (tag : String) :
-    ∃ st' b, runBinds cfg st win ev tag = .ok (st', b) ∧ KInv st' int ∧ Pres st st' ∧ KeepingHandlers st' := by
+    ∃ st' b, runBinds cfg st win ev tag = .ok (st', b) ∧ KInv gh st' int ∧ Pres st st' ∧ KeepingHandlers st' := by
   unfold runBinds
   simp only [getW, get_live hw, bind_ok]
   obtain ⟨K1, P1⟩ := K.setX_same win { getX st win with iterating := true } rfl rfl
@@ -395,8 +434,8 @@ theorem runBinds_keep {cfg : Cfg} (R : Repaired cfg) {st : St} {int : Nat → Na
 
 /-! ## the snapshot of the children -/
 
-theorem foldl_refW_keep : ∀ (cs : List Nat) {st : St} {int : Nat → Nat}, KInv st int → (∀ c ∈ cs, ∃ cw, LiveW st.tree c cw) →
-    ∃ st', cs.foldlM refW st = .ok st' ∧ KInv st' (fun j => int j + cs.count j) ∧ Pres st st' ∧ st'.wx = st.wx
+theorem foldl_refW_keep : ∀ (cs : List Nat) {st : St} {int : Nat → Nat}, KInv gh st int → (∀ c ∈ cs, ∃ cw, LiveW st.tree c cw) →
+    ∃ st', cs.foldlM refW st = .ok st' ∧ KInv gh st' (fun j => int j + cs.count j) ∧ Pres st st' ∧ st'.wx = st.wx
   | [], st, int, K, _ => ⟨st, rfl, by simpa using K, Pres.refl st, rfl⟩
   | c :: rest, st, int, K, hl => by
     obtain ⟨cw, hc⟩ := hl c (by simp)
@@ -415,9 +454,9 @@ theorem foldl_refW_keep : ∀ (cs : List Nat) {st : St} {int : Nat → Nat}, KIn
         simp [hj, this]
     rw [← e]; exact K2
 
-theorem foldl_unrefW_keep (cfg : Cfg) : ∀ (cs : List Nat) {st : St} {int : Nat → Nat}, KInv st (fun j => int j + cs.count j) →
+theorem foldl_unrefW_keep (cfg : Cfg) : ∀ (cs : List Nat) {st : St} {int : Nat → Nat}, KInv gh st (fun j => int j + cs.count j) →
     (∀ c ∈ cs, ∃ cw, LiveW st.tree c cw) →
-    ∃ st', cs.foldlM (unrefW cfg) st = .ok st' ∧ KInv st' int ∧ Pres st st' ∧ st'.wx = st.wx
+    ∃ st', cs.foldlM (unrefW cfg) st = .ok st' ∧ KInv gh st' int ∧ Pres st st' ∧ st'.wx = st.wx
   | [], st, int, K, _ => ⟨st, rfl, by simpa using K, Pres.refl st, rfl⟩
   | c :: rest, st, int, K, hl => by
     obtain ⟨cw, hc⟩ := hl c (by simp)
@@ -440,14 +479,14 @@ theorem foldl_unrefW_keep (cfg : Cfg) : ∀ (cs : List Nat) {st : St} {int : Nat
 
 /-- What the frames below give: a recursive call on a child of `win` succeeds, keeps everything alive and gives back
     the references it took. -/
-def RecOk (recK : St → Id → Out (St × Bool)) (win : Nat) (N : Nat) : Prop :=
-  ∀ {st : St} {int : Nat → Nat} {child : Nat} {cw : Win}, KInv st int → KeepingHandlers st → LiveW st.tree child cw →
-    cw.parent = some win → st.tree.wins.size = N → ∃ st' b, recK st child = .ok (st', b) ∧ KInv st' int ∧ Pres st st' ∧ KeepingHandlers st'
+def RecOk (gh : Ghost) (recK : St → Id → Out (St × Bool)) (win : Nat) (N : Nat) : Prop :=
+  ∀ {st : St} {int : Nat → Nat} {child : Nat} {cw : Win}, KInv gh st int → KeepingHandlers st → LiveW st.tree child cw →
+    cw.parent = some win → st.tree.wins.size = N → ∃ st' b, recK st child = .ok (st', b) ∧ KInv gh st' int ∧ Pres st st' ∧ KeepingHandlers st'
 
-theorem keyLoop_keep {recK : St → Id → Out (St × Bool)} {win : Nat} {N : Nat} (hrec : RecOk recK win N) :
-    ∀ (cs : List Nat) {st : St} {int : Nat → Nat}, KInv st int → KeepingHandlers st → (∃ w, LiveW st.tree win w) →
+theorem keyLoop_keep {recK : St → Id → Out (St × Bool)} {win : Nat} {N : Nat} (hrec : RecOk gh recK win N) :
+    ∀ (cs : List Nat) {st : St} {int : Nat → Nat}, KInv gh st int → KeepingHandlers st → (∃ w, LiveW st.tree win w) →
     (∀ c ∈ cs, ∃ cw, LiveW st.tree c cw) → st.tree.wins.size = N →
-    ∃ st' b, keyLoop recK win st cs = .ok (st', b) ∧ KInv st' int ∧ Pres st st' ∧ KeepingHandlers st'
+    ∃ st' b, keyLoop recK win st cs = .ok (st', b) ∧ KInv gh st' int ∧ Pres st st' ∧ KeepingHandlers st'
   | [], st, int, K, H, _, _, _ => ⟨st, false, by rw [keyLoop]; rfl, K, Pres.refl st, H⟩
   | child :: rest, st, int, K, H, hwin, hl, hN => by
     obtain ⟨cw, hc⟩ := hl child (by simp)
@@ -526,9 +565,9 @@ theorem handleKeyBody_eq (cfg : Cfg) (recK : St → Id → Out (St × Bool)) (st
         | none => kStage1 cfg recK win (st, false)) := by
   rfl
 
-theorem kStage4_keep (cfg : Cfg) {win : Nat} {r4 : St × Bool} {int : Nat → Nat} (K : KInv r4.1 (bump int win))
+theorem kStage4_keep (cfg : Cfg) {win : Nat} {r4 : St × Bool} {int : Nat → Nat} (K : KInv gh r4.1 (bump int win))
     (H : KeepingHandlers r4.1) (hw : ∃ w, LiveW r4.1.tree win w) :
-    ∃ st' b, kStage4 cfg win r4 = .ok (st', b) ∧ KInv st' int ∧ Pres r4.1 st' ∧ KeepingHandlers st' := by
+    ∃ st' b, kStage4 cfg win r4 = .ok (st', b) ∧ KInv gh st' int ∧ Pres r4.1 st' ∧ KeepingHandlers st' := by
   obtain ⟨w, hw⟩ := hw
   unfold kStage4
   obtain ⟨st1, h1, K1, P1, hx1⟩ := K.unrefI cfg hw (bump_self int win)
@@ -536,10 +575,10 @@ theorem kStage4_keep (cfg : Cfg) {win : Nat} {r4 : St × Bool} {int : Nat → Na
   simp only [h1, bind_ok, pure_ok]
   exact ⟨st1, r4.2, rfl, K1, P1, H.of_wx hx1⟩
 
-theorem kStage3_keep {cfg : Cfg} {recK : St → Id → Out (St × Bool)} {win : Nat} {N : Nat} (hrec : RecOk recK win N)
-    {r3 : St × Bool} {int : Nat → Nat} (K : KInv r3.1 (bump int win)) (H : KeepingHandlers r3.1) (hw : ∃ w, LiveW r3.1.tree win w)
+theorem kStage3_keep {cfg : Cfg} {recK : St → Id → Out (St × Bool)} {win : Nat} {N : Nat} (hrec : RecOk gh recK win N)
+    {r3 : St × Bool} {int : Nat → Nat} (K : KInv gh r3.1 (bump int win)) (H : KeepingHandlers r3.1) (hw : ∃ w, LiveW r3.1.tree win w)
     (hN : r3.1.tree.wins.size = N) :
-    ∃ st' b, kStage3 cfg recK win r3 = .ok (st', b) ∧ KInv st' int ∧ Pres r3.1 st' ∧ KeepingHandlers st' := by
+    ∃ st' b, kStage3 cfg recK win r3 = .ok (st', b) ∧ KInv gh st' int ∧ Pres r3.1 st' ∧ KeepingHandlers st' := by
   unfold kStage3
   by_cases hb : r3.2 = true
   · rw [if_pos hb]
@@ -562,10 +601,10 @@ theorem kStage3_keep {cfg : Cfg} {recK : St → Id → Out (St × Bool)} {win : 
     obtain ⟨st4, b4, h4, K4, P4, H4⟩ := kStage4_keep cfg (r4 := (st3, b2)) K3 (H2.of_wx hx3) ((P1.trans (P2.trans P3)).live win w hwl)
     exact ⟨st4, b4, h4, K4, ((P1.trans P2).trans P3).trans P4, H4⟩
 
-theorem kStage2_keep {cfg : Cfg} (R : Repaired cfg) {recK : St → Id → Out (St × Bool)} {win : Nat} {N : Nat} (hrec : RecOk recK win N)
-    {r2 : St × Bool} {int : Nat → Nat} (K : KInv r2.1 (bump int win)) (H : KeepingHandlers r2.1) (hw : ∃ w, LiveW r2.1.tree win w)
+theorem kStage2_keep {cfg : Cfg} (R : Repaired cfg) {recK : St → Id → Out (St × Bool)} {win : Nat} {N : Nat} (hrec : RecOk gh recK win N)
+    {r2 : St × Bool} {int : Nat → Nat} (K : KInv gh r2.1 (bump int win)) (H : KeepingHandlers r2.1) (hw : ∃ w, LiveW r2.1.tree win w)
     (hN : r2.1.tree.wins.size = N) :
-    ∃ st' b, kStage2 cfg recK win r2 = .ok (st', b) ∧ KInv st' int ∧ Pres r2.1 st' ∧ KeepingHandlers st' := by
+    ∃ st' b, kStage2 cfg recK win r2 = .ok (st', b) ∧ KInv gh st' int ∧ Pres r2.1 st' ∧ KeepingHandlers st' := by
   unfold kStage2
   by_cases hb : r2.2 = true
   · rw [if_pos hb]
@@ -583,10 +622,10 @@ theorem kStage2_keep {cfg : Cfg} (R : Repaired cfg) {recK : St → Id → Out (S
     · rw [if_neg hs]
       exact kStage3_keep hrec (r3 := (r2.1, false)) K H ⟨w, hwl⟩ hN
 
-theorem kStage1_keep {cfg : Cfg} (R : Repaired cfg) {recK : St → Id → Out (St × Bool)} {win : Nat} {N : Nat} (hrec : RecOk recK win N)
-    {r1 : St × Bool} {int : Nat → Nat} (K : KInv r1.1 (bump int win)) (H : KeepingHandlers r1.1) (hw : ∃ w, LiveW r1.1.tree win w)
+theorem kStage1_keep {cfg : Cfg} (R : Repaired cfg) {recK : St → Id → Out (St × Bool)} {win : Nat} {N : Nat} (hrec : RecOk gh recK win N)
+    {r1 : St × Bool} {int : Nat → Nat} (K : KInv gh r1.1 (bump int win)) (H : KeepingHandlers r1.1) (hw : ∃ w, LiveW r1.1.tree win w)
     (hN : r1.1.tree.wins.size = N) :
-    ∃ st' b, kStage1 cfg recK win r1 = .ok (st', b) ∧ KInv st' int ∧ Pres r1.1 st' ∧ KeepingHandlers st' := by
+    ∃ st' b, kStage1 cfg recK win r1 = .ok (st', b) ∧ KInv gh st' int ∧ Pres r1.1 st' ∧ KeepingHandlers st' := by
   unfold kStage1
   by_cases hb : r1.2 = true
   · rw [if_pos hb]
@@ -605,10 +644,10 @@ theorem kStage1_keep {cfg : Cfg} (R : Repaired cfg) {recK : St → Id → Out (S
       exact ⟨st2, b2, h2, K2, P1.trans P2, H2⟩
 
 /-- The body of `_handle_key`, the frames below being in order. -/
-theorem handleKeyBody_keep {cfg : Cfg} (R : Repaired cfg) {recK : St → Id → Out (St × Bool)} {win : Nat} {N : Nat} (hrec : RecOk recK win N)
-    {st : St} {int : Nat → Nat} (K : KInv st int) (H : KeepingHandlers st) {ww : Win} (hw : LiveW st.tree win ww)
+theorem handleKeyBody_keep {cfg : Cfg} (R : Repaired cfg) {recK : St → Id → Out (St × Bool)} {win : Nat} {N : Nat} (hrec : RecOk gh recK win N)
+    {st : St} {int : Nat → Nat} (K : KInv gh st int) (H : KeepingHandlers st) {ww : Win} (hw : LiveW st.tree win ww)
     (hN : st.tree.wins.size = N) :
-    ∃ st' b, handleKeyBody cfg recK st win = .ok (st', b) ∧ KInv st' int ∧ Pres st st' ∧ KeepingHandlers st' := by
+    ∃ st' b, handleKeyBody cfg recK st win = .ok (st', b) ∧ KInv gh st' int ∧ Pres st st' ∧ KeepingHandlers st' := by
   rw [handleKeyBody_eq]
   obtain ⟨sh, hsh⟩ := isShown_ok K.tinv win ww hw _ (chainFuel_gt hw)
   simp only [isShownW, hsh, bind_ok]
@@ -643,8 +682,8 @@ theorem handleKeyBody_keep {cfg : Cfg} (R : Repaired cfg) {recK : St → Id → 
 
 /-- `_handle_key` with enough recursion budget for the windows below `win` (children are younger than their parents). -/
 theorem handleKey_keep {cfg : Cfg} (R : Repaired cfg) : ∀ (fuel : Nat) {st : St} {int : Nat → Nat} {win : Nat} {ww : Win},
-    KInv st int → KeepingHandlers st → LiveW st.tree win ww → st.tree.wins.size ≤ win + fuel →
-    ∃ st' b, handleKey cfg fuel st win = .ok (st', b) ∧ KInv st' int ∧ Pres st st' ∧ KeepingHandlers st'
+    KInv gh st int → KeepingHandlers st → LiveW st.tree win ww → st.tree.wins.size ≤ win + fuel →
+    ∃ st' b, handleKey cfg fuel st win = .ok (st', b) ∧ KInv gh st' int ∧ Pres st st' ∧ KeepingHandlers st'
   | 0, st, int, win, ww, _, _, hw, hsz => by have := hw.lt; omega
   | fuel + 1, st, int, win, ww, K, H, hw, hsz => by
     unfold handleKey
@@ -656,8 +695,8 @@ theorem handleKey_keep {cfg : Cfg} (R : Repaired cfg) : ∀ (fuel : Nat) {st : S
 
 /-! ## `tickit_term_emit_key` -/
 
-theorem emitKeyNew_keep {cfg : Cfg} (R : Repaired cfg) {st : St} (inv : SInv st) (H : KeepingHandlers st) (hT : heldT st = true) :
-    ∃ st', emitKeyNew cfg st = .ok st' ∧ SInv st' ∧ KeepingHandlers st' := by
+theorem emitKeyNew_keep {cfg : Cfg} (R : Repaired cfg) {st : St} (inv : SInv gh st) (H : KeepingHandlers st) (hT : heldT st = true) :
+    ∃ st', emitKeyNew cfg st = .ok st' ∧ SInv gh st' ∧ KeepingHandlers st' := by
   have hfree : st.term.freed = false := by
     unfold heldT at hT
     cases h : st.term.freed <;> simp [h] at hT ⊢
@@ -669,9 +708,9 @@ theorem emitKeyNew_keep {cfg : Cfg} (R : Repaired cfg) {st : St} (inv : SInv st)
   · rw [if_pos hrf]; exact ⟨st, rfl, inv, H⟩
   · rw [if_neg hrf]
     have hrl : LiveW st.tree 0 r := ⟨hr, by cases h : r.freed <;> simp_all⟩
-    have K0 : KInv { st with termIter := true } (fun _ => 0) := by
+    have K0 : KInv gh { st with termIter := true } (fun _ => 0) := by
       have K := KInv.of_inv inv
-      exact ⟨K.toSInvB.of_wx rfl rfl rfl rfl rfl rfl, K.up, K.lo⟩
+      exact ⟨K.toSInvB.of_wx rfl rfl rfl rfl rfl rfl, K.up, K.lo, K.glive⟩
     have H0 : KeepingHandlers { st with termIter := true } := H.of_wx rfl
     obtain ⟨st1, b1, h1, K1, P1, H1⟩ := handleKey_keep R (routeFuel { st with termIter := true }) K0 H0 (ww := r) hrl
       (by simp only [routeFuel]; omega)
@@ -679,12 +718,12 @@ theorem emitKeyNew_keep {cfg : Cfg} (R : Repaired cfg) {st : St} (inv : SInv st)
     have ht1 : st1.term.freed = false := by rw [P1.term]; exact hfree
     simp only [ht1, Bool.false_eq_true, if_false, pure_ok]
     refine ⟨_, rfl, ?_, H1.of_wx rfl⟩
-    have K2 : KInv { st1 with termIter := false } (fun _ => 0) := ⟨K1.toSInvB.of_wx rfl rfl rfl rfl rfl rfl, K1.up, K1.lo⟩
+    have K2 : KInv gh { st1 with termIter := false } (fun _ => 0) := ⟨K1.toSInvB.of_wx rfl rfl rfl rfl rfl rfl, K1.up, K1.lo, K1.glive⟩
     exact K2.to_inv
 
 /-- The operation `key`: `tickit_term_emit_key` with handlers that free nothing. -/
-theorem step_key_ok {cfg : Cfg} (R : Repaired cfg) {st : St} (inv : SInv st) (H : KeepingHandlers st) :
-    ∃ st' r, step cfg st .key = .ok (st', r) ∧ SInv st' ∧ KeepingHandlers st' := by
+theorem step_key_ok {cfg : Cfg} (R : Repaired cfg) {st : St} (inv : SInv gh st) (H : KeepingHandlers st) :
+    ∃ st' r, step cfg st .key = .ok (st', r) ∧ SInv gh st' ∧ KeepingHandlers st' := by
   unfold step
   by_cases hT : heldT st = true
   · simp only [hT, Bool.not_true, Bool.false_eq_true, if_false, okR, emitKey, R.snapshotRouting, if_true]
